@@ -91,6 +91,22 @@ fn link_via_api(v: &Value) -> Option<in_toto::models::LinkMetadata> {
         .env(env).byproducts(bp).command(cmd.into()).build().ok()
 }
 
+/// the layout of a scenario tree built through `LayoutMetadata::new` (the key table exactly as given, also when an entry
+/// is filed under an identifier that is not the key's own - the parser would drop such an entry)
+fn layout_via_api(v: &Value) -> Option<in_toto::models::LayoutMetadata> {
+    use in_toto::crypto::{KeyId, PublicKey};
+    use in_toto::models::{inspection::Inspection, step::Step, LayoutMetadata};
+    use std::collections::HashMap;
+    use std::str::FromStr;
+    if v["_type"] != "layout" { return None; }
+    let steps: Vec<Step> = serde_json::from_value(v["steps"].clone()).ok()?;
+    let inspect: Vec<Inspection> = serde_json::from_value(v["inspect"].clone()).ok()?;
+    let mut keys: HashMap<KeyId, PublicKey> = HashMap::new();
+    for (id, doc) in v["keys"].as_object()? { keys.insert(KeyId::from_str(id).ok()?, serde_json::from_value(doc.clone()).ok()?); }
+    let expires = chrono::DateTime::parse_from_rfc3339(v["expires"].as_str()?).ok()?.with_timezone(&chrono::Utc);
+    Some(LayoutMetadata::new(expires, v["readme"].as_str()?.to_string(), keys, steps, inspect))
+}
+
 /// sign through the library, write JSON (compact and pretty), read back, verify with threshold 1
 fn wire_trip_verifies(meta: MetadataWrapper, key: &PrivateKey) -> bool {
     let mb = match Metablock::new(meta, &[key]) { Ok(m) => m, Err(_) => return false };
@@ -112,7 +128,9 @@ pub fn run(sc: &Value) -> Value {
     let reser = serde_json::to_value(&meta).unwrap();
     let parse_altered = reser != v;
     // wire-trip scenarios: the value built through the constructors when that is possible (link), else the parsed value
-    let meta = if sc["wire_trip"] == true { link_via_api(&v).map(MetadataWrapper::Link).unwrap_or(meta) } else { meta };
+    let meta = if sc["wire_trip"] == true || sc["via_api"] == true {
+        link_via_api(&v).map(MetadataWrapper::Link).or_else(|| if sc["via_api"] == true { layout_via_api(&v).map(MetadataWrapper::Layout) } else { None }).unwrap_or(meta)
+    } else { meta };
     let wire_ok: Option<bool> = if sc["wire_trip"] == true { Some(wire_trip_verifies(meta.clone(), &key)) } else { None };
     let mb = Metablock::new(meta, &[&key]).expect("sign");
     let lib_sig = serde_json::to_value(&mb).unwrap()["signatures"][0]["sig"].as_str().unwrap().to_string();
